@@ -212,18 +212,43 @@ func (s *TieredCompactionStrategy) CompactRange(minKey, maxKey []byte) error {
 		}
 	}
 
-	// Find overlapping files in each level
-	for level := 0; level <= maxLevel; level++ {
-		var overlappingFiles []*SSTableInfo
+	// Find overlapping files in each level. The output goes below every
+	// existing level, so a file that shares keys with a selected file must be
+	// merged as well, even if it lies outside the requested range: left where
+	// it is, its older versions would sit above the newer ones. Widen the range
+	// to the selected files and repeat until nothing more is picked up.
+	for {
+		selected := 0
+		for level := 0; level <= maxLevel; level++ {
+			var overlappingFiles []*SSTableInfo
 
-		for _, file := range s.levels[level] {
-			if file.Overlaps(rangeInfo) {
-				overlappingFiles = append(overlappingFiles, file)
+			for _, file := range s.levels[level] {
+				if file.Overlaps(rangeInfo) {
+					overlappingFiles = append(overlappingFiles, file)
+				}
+			}
+
+			if len(overlappingFiles) > 0 {
+				task.InputFiles[level] = overlappingFiles
+				selected += len(overlappingFiles)
 			}
 		}
 
-		if len(overlappingFiles) > 0 {
-			task.InputFiles[level] = overlappingFiles
+		widened := false
+		for _, files := range task.InputFiles {
+			for _, file := range files {
+				if bytes.Compare(file.FirstKey, rangeInfo.FirstKey) < 0 {
+					rangeInfo.FirstKey = file.FirstKey
+					widened = true
+				}
+				if bytes.Compare(file.LastKey, rangeInfo.LastKey) > 0 {
+					rangeInfo.LastKey = file.LastKey
+					widened = true
+				}
+			}
+		}
+		if !widened || selected == 0 {
+			break
 		}
 	}
 
